@@ -173,7 +173,7 @@ def make_record(pa, c, d, al, D, de_int, scale, mode, tol, *, search, band=0, wa
     rec = {"n": n, "sizes": sizes, "D": D, "de": de_int, "tol": tol, "band": band, "mode": mode,
            "tuples": tuples, "ud": ud, "tot": tot, "rud": rud, "rtot": rtot, "sud": sud, "pud": pud,
            "hascands": 0, "cands": [], "backend": got_backend, "wantbackend": want_backend,
-           "modelopt": modelopt, "search": 1 if search else 0, "bestcost": bestcost, "fastbest": -1, "covering": 0}
+           "modelopt": modelopt, "search": 1 if search else 0, "bestcost": bestcost, "fastbest": -1, "covering": 0, "othercost": -1}
     if cands is not None:
         dis, tup = cands
         rec["hascands"] = 1
